@@ -9,7 +9,7 @@ import drive
 import p_filter as PF
 from codec import sansldap
 
-LEAN_TARGETS = ["Verif.Props.C13"]
+LEAN_TARGETS = ["Verif.Props.C13", "Verif.Props.Ties"]
 LEVEL = "proof"
 ASSUMPTIONS = [
     "domain (WFText): RFC 4512 attribute descriptions / matching rules, non-empty and/or lists, substrings with at least one and no empty "
